@@ -2,7 +2,7 @@
    signature so that a single small OCaml driver (or a generated cases.v) can run
    them:  dispatch id scalars coords indices : option (list Q). *)
 From Coq Require Import List ZArith QArith Bool.
-Require Import Cox.Num.Ops Cox.Geo.Vec Cox.Model.Mesh Cox.Model.Polygon Cox.Model.Inside Cox.Model.Curved Cox.Model.Structure Cox.Model.Balls Cox.Model.Simple.
+Require Import Cox.Num.Ops Cox.Geo.Vec Cox.Model.Mesh Cox.Model.Polygon Cox.Model.Inside Cox.Model.Curved Cox.Model.Structure Cox.Model.Balls Cox.Model.Simple Cox.Model.Roundtrip.
 Import ListNotations.
 
 Fixpoint group3 (l : list Q) : list (vec3 Q) :=
@@ -179,6 +179,19 @@ Section Entries.
   (* 47: simplicity of a planar cycle. qs = (x y ...) -> [simple; has_duplicates] *)
   Definition e_simple (qs : list Q) : list Q :=
     let V := group2 qs in [b2q (simple_bf O V); b2q (has_duplicates O V); b2q (proper_cross_bf O V); b2q (touch_bf O V)].
+
+  (* 60: GSD class dispatch. sc = [type code 0..6; has_rr; dims; convex] -> [class code 0..9 | -1 (ValueError)] *)
+  Definition e_gsd_dispatch (sc : list Q) : list Q :=
+    let code := Qnum (nth 0 sc 0) in
+    let t := match code with
+             | 0 => TSphere | 1 => TEllipsoid | 2 => TPolygon | 3 => TConvexPolyhedron | 4 => TMesh | 5 => TUnknown | _ => TMissing
+             end%Z in
+    let dims := Z.to_nat (Qnum (nth 2 sc 0)) in
+    match dispatch_class t (qtrue (nth 1 sc 0)) dims (qtrue (nth 3 sc 0)) with
+    | None => [z2q (-1)]
+    | Some k => [z2q (match k with KCircle => 0 | KEllipse => 1 | KSphere => 2 | KEllipsoid => 3 | KPolygon => 4 | KConvexPolygon => 5
+                              | KConvexSpheropolygon => 6 | KPolyhedron => 7 | KConvexPolyhedron => 8 | KConvexSpheropolyhedron => 9 end)]
+    end.
 End Entries.
 
 Definition dispatch (f : nat) (sc qs : list Q) (idx : list (list nat)) : option (list Q) :=
@@ -203,5 +216,6 @@ Definition dispatch (f : nat) (sc qs : list Q) (idx : list (list nat)) : option 
   | 45 => Some (e_balls sc qs idx)
   | 46 => Some (e_circum sc qs)
   | 47 => Some (e_simple qs)
+  | 60 => Some (e_gsd_dispatch sc)
   | _ => None
   end%nat.
